@@ -57,6 +57,17 @@ pub fn programs12() -> Vec<Prog> {
     p.push(None, Stmt::Fill(Lit::hex(0x1234)));
     p.push(Some("data"), Stmt::Stringz("Hi".into()));
     v.push(Prog::new("loaded-across-xFE00", p, true));
+    // an image with 8192 zero words in the middle and content behind them: the saved initial
+    // state must hold what lies behind the zeros
+    let mut p = Program::default();
+    p.push(Some("first"), Stmt::Mem(PcRel::Ld, 0, lbl("addr")));
+    p.push(Some("slot"), Stmt::Named(0x22, "puts"));
+    p.push(Some("end"), Stmt::Named(0x25, "halt"));
+    p.push(Some("addr"), Stmt::Fill(Lit::hex(0x5005)));
+    p.push(Some("data"), Stmt::Fill(Lit::hex(0x0000)));
+    p.push(None, Stmt::Blkw(Lit::dec(8192)));
+    p.push(Some("msg"), Stmt::Stringz("behind".into()));
+    v.push(Prog::new("zero-block-inside-image", p, true));
     v
 }
 
